@@ -81,13 +81,20 @@ def decodeDef : Sexp → Option (Def String)
     | _, _, _ => none
   | _ => none
 
-/-- `(prog (defs …) (body …) (sel …))` ↦ program and selected names -/
+/-- `(prog (defs …) (body …) (sel …) (extras b))` ↦ program and selected names (`extras`: the real program
+also carries declarations, a frame, a waveform, calibrations, a circuit and an EXTERN pragma; they are not
+body instructions and the model ignores them) -/
 def decodeInput : Sexp → Option (Program String × List String)
-  | .list [.atom "prog", .list (.atom "defs" :: ds), .list (.atom "body" :: is), .list (.atom "sel" :: ss)] =>
+  | .list [.atom "prog", .list (.atom "defs" :: ds), .list (.atom "body" :: is), .list (.atom "sel" :: ss),
+      .list [.atom "extras", _]] =>
     match decodeAll decodeDef ds, decodeAll decodeInstr is, decodeAll decodeStr ss with
     | some ds, some is, some ss => some ({ defs := ds, body := is }, ss)
     | _, _, _ => none
   | _ => none
+
+def inputHasExtras : Sexp → Bool
+  | .list [_, _, _, _, .list [.atom "extras", .atom "true"]] => true
+  | _ => false
 
 def decodeErr : Sexp → Option Err
   | .list [.atom "paramCount", .atom e, .atom f] =>
@@ -113,5 +120,40 @@ def errKind : Err → String
   | .modifiers .. => "modifiers"
   | .invalidElemQubit .. => "invalidElem"
   | .undefinedElemQubit .. => "undefinedElem"
+
+/-- what one entry point returned: `(ok (body …) (kept …) (intact b) …)` or `(err e)`; the remaining
+elements of an `ok` (source map, lookups) are returned undecoded -/
+inductive PlainOut where
+  | ok (body : List (Instr String)) (kept : List String) (intact : Bool)
+  | err (e : Err)
+  deriving DecidableEq, Repr
+
+def decodePlain : Sexp → Option (PlainOut × List Sexp)
+  | .list (.atom "ok" :: .list (.atom "body" :: is) :: .list (.atom "kept" :: ks) :: .list [.atom "intact", .atom b] :: rest) =>
+    match decodeAll decodeInstr is, decodeAll decodeStr ks with
+    | some is, some ks => some (.ok is ks (b == "true"), rest)
+    | _, _ => none
+  | .list [.atom "err", e] => (decodeErr e).map fun e => (.err e, [])
+  | _ => none
+
+/-- the shared observation `(obs (plain P) (mapped P') (fullsame b) (again b) (errfmt b))` -/
+structure Obs where
+  plain : PlainOut
+  mapped : PlainOut
+  /-- `(map …) (ls …) (lt …)` of a successful `mapped`, undecoded -/
+  mappedRest : List Sexp
+  fullsame : Bool
+  again : Bool
+  errfmt : Bool
+
+def decodeObs : Sexp → Option Obs
+  | .list [.atom "obs", .list [.atom "plain", p], .list [.atom "mapped", m], .list [.atom "fullsame", .atom a],
+      .list [.atom "again", .atom b], .list [.atom "errfmt", .atom c]] =>
+    match decodePlain p, decodePlain m with
+    | some (p, _), some (m, rest) =>
+      some { plain := p, mapped := m, mappedRest := rest, fullsame := a == "true", again := b == "true", errfmt := c == "true" }
+    | _, _ => none
+  | _ => none
+
 
 end QV.SeqGateWire
